@@ -4,10 +4,17 @@ use serde_json::Value;
 pub mod c02;
 pub mod c04;
 pub mod c05;
+pub mod c07;
 pub mod c09;
+pub mod c10;
+pub mod c11;
+pub mod c12;
 pub mod c13;
+pub mod c14;
 pub mod c15;
+pub mod c18;
 pub mod c19;
+pub mod c20;
 
 macro_rules! table {
     ($($id:literal => $m:ident),* $(,)?) => {
@@ -30,10 +37,17 @@ table! {
     "C02" => c02,
     "C04" => c04,
     "C05" => c05,
+    "C07" => c07,
     "C09" => c09,
+    "C10" => c10,
+    "C11" => c11,
+    "C12" => c12,
     "C13" => c13,
+    "C14" => c14,
     "C15" => c15,
+    "C18" => c18,
     "C19" => c19,
+    "C20" => c20,
 }
 
 /// run the replay tier (committed regression cases + stored replays) of a property
@@ -51,4 +65,18 @@ pub fn configure(ctx: &mut Ctx) {
         ctx.hang_limit = std::time::Duration::from_secs(20);
         ctx.hang_is_violation = true;
     }
+}
+
+/// draw n values from a strategy with a runner seeded from (VERIF_SEED, property, sub) - for sub-checks that evaluate
+/// their cases outside proptest's own loop (child-process batches)
+pub fn sample_cases<S: proptest::strategy::Strategy>(ctx: &Ctx, sub: &str, strat: &S, n: usize) -> Vec<S::Value> {
+    use proptest::strategy::ValueTree;
+    use proptest::test_runner::{Config, RngAlgorithm, TestRng, TestRunner};
+    let seed = crate::util::mix(&[ctx.seed, crate::util::hash_str(&ctx.id), crate::util::hash_str(sub), 0x5A]);
+    let mut sb = [0u8; 32];
+    for i in 0..4 {
+        sb[i * 8..i * 8 + 8].copy_from_slice(&crate::util::splitmix64(seed.wrapping_add(i as u64)).to_le_bytes());
+    }
+    let mut runner = TestRunner::new_with_rng(Config::default(), TestRng::from_seed(RngAlgorithm::ChaCha, &sb));
+    (0..n).filter_map(|_| strat.new_tree(&mut runner).ok().map(|t| t.current())).collect()
 }
